@@ -457,7 +457,7 @@ class AddonManager:
             if RLVParser.is_rlv_message(message):
                 # RLV allows putting multiple commands into one message, blindly splitting on ",".
                 all_cmds_handled = True
-                chat: str = message["ChatData"]["Message"]
+                chat: str = str(message["ChatData"]["Message"])
                 source = message["ChatData"]["SourceID"]
                 for command in RLVParser.parse_chat(chat):
                     try:
